@@ -1,4 +1,5 @@
 import ChythonModel.Proofs.C13Step
+import ChythonModel.Proofs.C13Graph
 /-!
 # C13 — edits keep derived views coherent; transactions atomic; copies independent
 
@@ -180,6 +181,7 @@ theorem no_attribute_error {T : Tables} (hT : TablesOK T = true) (e : Entry13) (
       subst herr
       exact interp_err hK _ _ _ _ _ _ (gamma_entry ho e.needsLabels hl) (by rw [hskip]; exact han) hi
 
+
 /-! ## the hypotheses are satisfiable: a concrete admissible history on propan-1-ol exercising reads, an edit, a
 transaction with an attribute write, an aborted transaction, a copy and an edit of the copy -/
 
@@ -199,5 +201,26 @@ example : admissible current (freshWorld demoMol) demoHist = true := by decide +
 
 example : ((runHist current (freshWorld demoMol) demoHist).objs.map fun o => (o.mol.ids, coherent o.toCore)) =
     [([1, 2, 3], true), ([1, 2, 3, 4], true)] := by decide +kernel
+
+/-! ## the adjacency stays symmetric -/
+
+/-- **wf_preserved** (edits): each raw graph edit the interpreter installs — `add_atom`, `add_bond`, `delete_atom`,
+`delete_bond` — maps a symmetric adjacency (both directions present, carrying the same bond) to a symmetric one.
+(`remap`, `union` and the restore of a snapshot are validated by the correspondence only, see design/C13.md.) -/
+theorem wf_preserved_edits (m : Mol) (hs : AdjSym m.adj) :
+    (∀ z n m' k, gAddAtom m z n = .ok (m', k) → AdjSym m'.adj) ∧
+    (∀ a b order m', gAddBond m a b order = .ok m' → AdjSym m'.adj) ∧
+    (∀ n m', gDelAtom m n = .ok m' → AdjSym m'.adj) ∧
+    (∀ a b m', gDelBond m a b = .ok m' → AdjSym m'.adj) :=
+  ⟨fun _ _ _ _ h => addAtom_sym h hs, fun _ _ _ _ h => addBond_sym h hs, fun _ _ h => delAtom_sym h hs,
+   fun _ _ _ h => delBond_sym h hs⟩
+
+/-- the hypothesis is satisfiable and the edits are defined: ethanol skeleton, add then delete a bond -/
+example : AdjSym demoMol.adj ∧ (gAddBond demoMol 1 3 1).toOption.isSome ∧ (gDelBond demoMol 1 2).toOption.isSome := by
+  refine ⟨?_, by decide, by decide⟩
+  intro a la b bd ha hb
+  simp only [demoMol, List.mem_cons, Prod.mk.injEq, List.mem_nil_iff, or_false] at ha
+  rcases ha with ⟨rfl, rfl⟩ | ⟨rfl, rfl⟩ | ⟨rfl, rfl⟩ <;> simp at hb <;>
+    (try rcases hb with ⟨rfl, rfl⟩ | ⟨rfl, rfl⟩) <;> (try obtain ⟨rfl, rfl⟩ := hb) <;> simp_all [demoMol]
 
 end ChythonModel.Props.C13
